@@ -24,7 +24,7 @@ func init() {
 			{"EVENT-PAYLOAD", ruleEventPayload},
 		},
 		Meta: eng.PropMeta{
-			Explanation: "Decides the structural side of 'encrypted field values leave the node only as ciphertext': (ENC-PUT) in AddDelta, on every path where determineBlockEncryption returned an encryption block, the block written to the shared block store, the block that is signed and the block whose bytes are returned (and travel in the update event) is the result of encryptBlock, while the plaintext block flows only into ProcessBlock; (ENC-SEPARATION) *Encryption (key) blocks are stored only through Encstore(), *Block values only through Blockstore(), and the key store is touched only by the block layer, the merge path, the KMS and node start-up; (ENC-INHERIT) when no new encryption is requested, determineBlockEncryption reaches its 'not encrypted' result only after looking at every previous head, and a previous head with an encryption link makes it return that head's key; (ENC-SIBLING) encryptBlock and decryptBlock exempt the same delta variants; (KEY-EGRESS) key blocks leave the node only as crypto.EncryptECIES output and only for requesters that passed the document permission check; (EVENT-PAYLOAD) the update event carries the bytes AddDelta returned.",
+			Explanation: "Decides the structural side of 'encrypted field values leave the node only as ciphertext': (ENC-PUT) in AddDelta, on every path where determineBlockEncryption returned an encryption block, the block written to the shared block store, the block that is signed and the block whose bytes are returned (and travel in the update event) is the result of encryptBlock, while the plaintext block flows only into ProcessBlock; (ENC-SEPARATION) *Encryption (key) blocks are stored only through Encstore(), *Block values only through Blockstore(), and the key store is touched only by the block layer, the merge path, the KMS and node start-up; (ENC-INHERIT) when no new encryption is requested, determineBlockEncryption reaches its 'not encrypted' result only after looking at every previous head, and a previous head with an encryption link makes it return that head's key; (ENC-SIBLING) encryptBlock and decryptBlock exempt the same delta variants; (KEY-EGRESS) key blocks leave the node only as crypto.EncryptECIES output and only for requesters that passed the document permission check; (EVENT-PAYLOAD) the update event carries the bytes AddDelta returned. ENC-INHERIT additionally requires that nothing leaves the heads loop on a head that is not encrypted (mixed heads); (ENC-MEMBERSHIP) the user-supplied EncryptedFields list is only ranged over, measured, passed to slices.Contains/Index or handed to a helper doing the same — never binary-searched or read by position.",
 			NotDecided:  "absence of the plaintext from every stored byte (a value-level search), correctness of AES-GCM/ECIES, key management over time",
 		},
 	})
